@@ -295,6 +295,14 @@ let () =
     | _ -> "BADARGS")
 
 let () =
+  register "splicechildren" (function
+    | me :: children ->
+        let pairs = List.map (fun (((_, o), _), ((_, n), _)) -> (o, n)) dummy_atoms in
+        String.concat "\t" (List.map (function SpFresh -> "FRESH" | SpReused l -> "REUSED " ^ string_of_int (int_of_nat l) | SpOther -> "OTHER")
+                              (splice_children (explode me) pairs (List.map explode children)))
+    | _ -> "BADARGS")
+
+let () =
   register "specmol" (function
     | [tree] ->
         (match rgtree { s = tree; i = 0 } with
